@@ -164,6 +164,18 @@ class ListOf(Shape):
         return l
 
 
+class HeadTail(Shape):
+    """list/deque: concrete head elements followed by a symbolic-length tail"""
+    def __init__(self, head, tail, kind='deque'):
+        self.head, self.tail, self.kind = head, tail, kind
+
+    def sym(self, ex, name):
+        l = self.tail.sym(ex, name)
+        l.kind = self.kind
+        l.left = [s.sym(ex, '%s[%d]' % (name, i)) for i, s in enumerate(self.head)] + l.left
+        return l
+
+
 class DictOf(Shape):
     """dict with the given concrete keys"""
     def __init__(self, items, default_factory=None):
@@ -187,6 +199,13 @@ class Lock(Shape):
         l.held = self.held
         l.name = name
         return l
+
+
+def _lock_sym_at(self, ex, name, idx):
+    return self.sym(ex, name)
+
+
+Lock.sym_at = _lock_sym_at
 
 
 class Cond(Shape):
@@ -231,10 +250,17 @@ class Obj(Shape):
         c = ex.world.resolve_class(ex, self.cls)
         o = SObj(c)
         o.partial = self.partial
+        o.symname = name
+        later = []
         for k, s in self.fields.items():
+            if isinstance(s, Cond):
+                later.append((k, s))
+                continue
             if not isinstance(s, Shape):
                 s = Const(s)
             o.fields[k] = s.sym_at(ex, '%s.%s' % (name, k), idx)
+        for k, s in later:
+            o.fields[k] = CondVal(o.fields[s.of])
         return o
 
 
@@ -408,6 +434,7 @@ def concretize(ex, v, m, memo=None, depth=0):
         if id(v) in memo:
             return {'__ref__': memo[id(v)]}
         memo[id(v)] = v.oid
+        memo.setdefault('_keep', []).append(v)
         return {'__obj__': v.cls.qualname, 'id': v.oid,
                 'fields': {k: concretize(ex, x, m, memo) for k, x in v.fields.items()
                            if not isinstance(x, N.LazyField)}}
@@ -415,6 +442,7 @@ def concretize(ex, v, m, memo=None, depth=0):
         if id(v) in memo:
             return {'__ref__': memo[id(v)]}
         memo[id(v)] = 'L%d' % len(memo)
+        memo.setdefault('_keep', []).append(v)
         return {'__lock__': v.reentrant, 'id': memo[id(v)], 'held': v.held}
     if isinstance(v, CondVal):
         return {'__cond__': concretize(ex, v.lock, m, memo)}
@@ -644,10 +672,17 @@ def seq_conj(ex, clauses, env, mod):
 
 
 # ----------------------------------------------------------- annotated loop
-def lvalue_assign(ex, path, v, locals_):
+def lvalue_assign(ex, path, v, locals_, module=None, env=None):
     node = parse_clause(path)
     node.ctx = ast.Store()
-    ex.assign(node, v)
+    g = dict(module.globals) if module is not None else {}
+    g.update(ex.world.spec_globals(ex))
+    fr = Frame(None, ModuleVal('<spec>', g), locals_, set(), env or [])
+    ex.frames.append(fr)
+    try:
+        ex.assign(node, v)
+    finally:
+        ex.frames.pop()
 
 
 def annotated_loop(ex, node, spec, it=None):
@@ -691,8 +726,9 @@ def annotated_loop(ex, node, spec, it=None):
         exempt_vals.add(id(v))
         tnode = parse_clause(lv)
         if isinstance(tnode, ast.Attribute):
-            exempt_fields.add((id(ex.eval_in(fr, tnode.value)), tnode.attr))
-        lvalue_assign(ex, lv, v, fr.locals)
+            exempt_fields.add((id(eval_clause(ex, tnode.value, fr.locals, mod, fr.env)), tnode.attr))
+        lvalue_assign(ex, lv, v, fr.locals, mod, fr.env)
+    ex.ghost['havocked'] = True
     body_names, _ = assigned_names(node.body + ([ast.Assign(targets=[node.target], value=None)]
                                                 if False else []))
     if is_for:
@@ -872,12 +908,7 @@ def apply_contract(ex, c, f, args, kwargs):
             b.watch(eval_clause(ex, lo_src, env, mod), eval_clause(ex, hi_src, env, mod))
     old_env = {k: deep_copy(v, {}) for k, v in env.items()}
     for lv, shp in c.modifies.items():
-        fr = Frame(None, mod, env, set(), [])
-        ex.frames.append(fr)
-        try:
-            lvalue_assign(ex, lv, shp.sym(ex, 'mod!' + lv), env)
-        finally:
-            ex.frames.pop()
+        lvalue_assign(ex, lv, shp.sym(ex, 'mod!' + lv), env, mod)
     rs = list(c.raises.items())
     k = ex.choose(1 + len(rs))
     saved_old = ex.ghost.get('old_env')
@@ -891,6 +922,7 @@ def apply_contract(ex, c, f, args, kwargs):
                 ex.assume(clause_truth(ex, e, env2, mod, None, None))
             if ex.check() == z3.unsat:
                 raise PathEnd()
+            ex.nondet.append(('call:' + c.target, STuple(('return', res))))
             return res
         ename, clauses = rs[k - 1]
         cls = ex.world.resolve_class(ex, ename)
@@ -906,6 +938,7 @@ def apply_contract(ex, c, f, args, kwargs):
             ex.assume(clause_truth(ex, e, env2, mod, None, None))
         if ex.check() == z3.unsat:
             raise PathEnd()
+        ex.nondet.append(('call:' + c.target, STuple(('raise', cls, exc.fields.get('errno')))))
         raise PyRaise(exc)
     finally:
         ex.ghost['old_env'] = saved_old
@@ -1117,12 +1150,13 @@ def verify(world_factory, c, registry_by_name=None):
                 for i, e in enumerate(matched[1]):
                     ex.oblige('%s/raises:%s#%d' % (short, matched[0], i),
                               clause_truth(ex, e, env2, mod, None, '+', 'raises clause'), detail=e)
-        if len(samples) < 3:
+        if len([x for x in samples if not x.get('havocked')]) < 3 and len(samples) < 12:
             r, m = ex.model()
             if m is not None:
                 try:
                     s = conc_hook(ex, m)
                     s['outcome'] = outcome[0] if outcome[0] == 'return' else exc.cls.qualname
+                    s['havocked'] = bool(ex.ghost.get('havocked'))
                     samples.append(s)
                 except Exception:
                     pass
